@@ -1,5 +1,17 @@
+import os
+
+# Repairs of the C14 defect sites that /repo contains, by number of the proposed patch
+# (known-findings.d/mdm-fix-<n>-*.patch): 1 programData bounds (+UnlockKey min length), 2 ReadSector,
+# 3 ReadOffset, 4 DropSectors, 5 rpcSectorRoots, 6 rpcRead, 7 rpcWrite update+proof, 8 rpcFormContract key
+# length, 9 registry recorder store.  Add the number here when its `fix:` commit lands in /repo; the model
+# driver then expects the repaired behaviour at that site (Hostd.Mdm.Fixes.enable).  VERIF_MDM_FIXED
+# (space separated) overrides the list, e.g. to check a scratch tree: VERIF_MDM_FIXED="1 2 3" VERIF_REPO=... bin/check C14
+FIXED_IN_REPO = []
+_fixed = os.environ.get("VERIF_MDM_FIXED")
+_driver_args = _fixed.split() if _fixed is not None else [str(n) for n in FIXED_IN_REPO]
+
 PROP = dict(
-        engine="mdm", harness="mdm", driver="drv_mdm",
+        engine="mdm", harness="mdm", driver="drv_mdm", driver_args=_driver_args,
         props=["Hostd.Props.C14"],
         case_mode=True,          # every line is one independent hostile request
         # n = wire-level (RHP2/RHP3, real host in child processes) cases, n*len = in-process accessor/updater/cost cases
